@@ -17,14 +17,14 @@ var labelRe = regexp.MustCompile(`(?m)^# labels: (.*)$`)
 
 // serverGoroutines counts goroutines carrying the pprof labels the library attaches to server-side connections and
 // returns the function names on top of their stacks.
-func serverGoroutines() (int, []string) {
+func serverGoroutines(remote string) (int, []string) {
 	var buf bytes.Buffer
 	pprof.Lookup("goroutine").WriteTo(&buf, 1)
 	n := 0
 	var tops []string
 	for _, blk := range strings.Split(buf.String(), "\n\n") {
-		if !strings.Contains(blk, `"jrpc-mode":"wsserver"`) {
-			continue
+		if !strings.Contains(blk, `"jrpc-mode":"wsserver"`) || !strings.Contains(blk, `"jrpc-remote":"`+remote+`"`) {
+			continue // not a goroutine of the connection in question (earlier scenarios may still be winding down)
 		}
 		first := strings.SplitN(blk, " ", 2)[0]
 		var cnt int
@@ -57,7 +57,6 @@ func serverGoroutines() (int, []string) {
 func scC15End(w *World, a Args, rng *rand.Rand) error {
 	applyDelays(w, a)
 	cause := a.Str("cause", "fin") // graceful | fin | rst | srvcancel
-	base, _ := serverGoroutines()  // whatever earlier scenarios of this process left behind is not this connection's
 	A, err := w.NewClient(ClientOpts{Name: "A", NoPing: a.Bool("noping") || a.Bool("bigblocked") || a.Bool("stalled"), NoReconnect: true, Reverse: true, Ping: 20 * time.Millisecond, Timeout: 2 * time.Second})
 	if err != nil {
 		return err
@@ -123,6 +122,30 @@ func scC15End(w *World, a Args, rng *rand.Rand) error {
 		waitCh(entered, patience(3*time.Second))
 		time.Sleep(150 * time.Millisecond)
 	}
+	if n := a.Int("latesubs", 0); n > 0 {
+		// while the writer is blocked, streaming handlers return their channels: the first registration occupies the forwarder
+		// (it waits for the write lock), the next ones wait for the forwarder - all of them must be let go when the end comes
+		for k := 0; k < n; k++ {
+			tok := 81 + k
+			w.Plan(tok, &Plan{NoClose: true, WaitCtx: true})
+			wg.Add(1)
+			go func(tok int) {
+				defer wg.Done()
+				ctx, cancel := context.WithTimeout(context.Background(), 3*time.Second)
+				defer cancel()
+				A.Subscribe(ctx, tok, 3, "")
+			}(tok)
+			dl := time.Now().Add(time.Second)
+			for seen := false; !seen && time.Now().Before(dl); time.Sleep(time.Millisecond) {
+				for _, e := range w.Rec.Events() {
+					if e["ev"] == "HandlerEnd" && e["call"] == tok {
+						seen = true
+					}
+				}
+			}
+			time.Sleep(5 * time.Millisecond)
+		}
+	}
 	gated := false
 	if a.Bool("gatereader") {
 		// the server-side reader has a message in hand (not yet handed to the main loop) when the end comes
@@ -173,8 +196,10 @@ func scC15End(w *World, a Args, rng *rand.Rand) error {
 	n, tops := 0, []string{}
 	dl = time.Now().Add(patience(3 * time.Second))
 	for {
-		n, tops = serverGoroutines()
-		n -= base
+		w.mu.Lock()
+		remote := w.srvRemote[1]
+		w.mu.Unlock()
+		n, tops = serverGoroutines(remote)
 		if n <= 0 || time.Now().After(dl) {
 			break
 		}
